@@ -60,6 +60,7 @@ def run(ck, fb, fbd):
     circulators(ck, fb)
     ranges(ck, fb)
     collectors(ck, fb)
+    arithmetic(ck, fb)
     from .c15_c16 import sheet_rule
     ck.rule("C05.sheet", "CellSheetCellIter collects the neighbours across exactly the four halffaces whose orientation is neither the given direction nor opposite_orientation(direction)")
     sheet_rule(ck, fb, "C05.sheet")
@@ -69,6 +70,50 @@ def run(ck, fb, fbd):
 COLLECT_EXCEPTIONS = {
     ("OpenVolumeMesh::HalfFaceSheetHalfFaceIter", 3): "the innermost loop only looks for ONE halfedge the candidate halfface shares with the reference: one (halfface, common edge) pair is recorded per halfface by design",
 }
+
+
+def arithmetic(ck, fb):
+    """GenericCirculator: c + n / c += n step forward n times, c - n / c -= n step BACKWARD n times"""
+    ck.rule("C05.arith", "GenericCirculator: operator+(int), operator+=(int) and postfix ++ reach (through members of the class) operator++ and never operator--; operator-(int), operator-=(int) and postfix -- reach operator-- and never operator++: a subtraction routed through the forward loop with a negated count moves nothing")
+    ms = [f for f in fb.fns.values() if f.has_cfg and f.cls and f.cls.startswith("OpenVolumeMesh::GenericCirculator<")]
+    by_cls = {}
+    for f in ms:
+        by_cls.setdefault(f.cls, []).append(f)
+    n = 0
+    for cls, fs in sorted(by_cls.items())[:3]:
+        ids = {f.id: f for f in fs}
+
+        def reach_ops(f, seen=None):
+            seen = seen if seen is not None else set()
+            out = set()
+            for b, i, x in f.nodes(("call", "un")):
+                if b not in f.reach():
+                    continue
+                if x.get("k") == "call":
+                    op = x.get("op")
+                    if op in ("++", "--") and not x.get("a"):
+                        out.add(op)  # prefix step on a circulator object
+                    u = x.get("u")
+                    if u in ids and u not in seen and u != f.id:
+                        seen.add(u)
+                        out |= reach_ops(ids[u], seen)
+            return out
+        for f in fs:
+            op = f.d.get("op")
+            np_ = len(f.d["params"])
+            role = None
+            if op in ("+", "+=") and np_ == 1 or (op == "++" and np_ == 1):
+                role = "++"
+            if op in ("-", "-=") and np_ == 1 or (op == "--" and np_ == 1):
+                role = "--"
+            if role is None:
+                continue
+            n += 1
+            got = reach_ops(f)
+            other = "--" if role == "++" else "++"
+            ok = role in got and other not in got
+            (ck.ok if ok else lambda r, w, t: ck.violate(r, w, t, "C05.arith:%s%d" % (op, np_)))("C05.arith", f.where, "GenericCirculator::operator%s(int) steps with %s only (reaches %s)" % (op, role, sorted(got) or "no step"))
+    ck.floor("generic_circulator_arithmetic_members", n, 6)
 
 
 def collectors(ck, fb):
